@@ -349,6 +349,8 @@ fn hostile_case<W>(
                             _ => true,
                         })
                     }
+                    // an entry of another shape than the one `to_term` writes must not be accepted at all
+                    (Some(other), OwnedTerm::Tuple(b)) if b.len() == 2 && !matches!(other, OwnedTerm::Tuple(t) if t.len() == 2) => false,
                     _ => true,
                 };
                 if !same {
@@ -517,6 +519,14 @@ fn show_fncl(e: &FunctionClauseError) -> String {
     )
 }
 
+/// the keys of a map as a list (a third element of the `:sets` tuple that is not a map)
+fn keys_as_list(t: &OwnedTerm) -> OwnedTerm {
+    match t {
+        OwnedTerm::Map(m) => OwnedTerm::List(m.keys().cloned().collect()),
+        other => other.clone(),
+    }
+}
+
 fn wrappers(ctx: &mut Ctx) {
     let n = ctx.n(120, 500);
     // ---- ranges as terms
@@ -636,6 +646,33 @@ fn wrappers(ctx: &mut Ctx) {
         let t: OwnedTerm = set.clone().into();
         let h = mutate(&mut ctx.rng, &t);
         hostile_case(ctx, "mapset", &h, &ElixirMapSet::from_term, &|x| x.clone().into(), &show_set);
+        // the `:sets` tuple in wrong shapes: another tag, 2 or 4 elements, a third element that is no map, a wrong size
+        if let OwnedTerm::Map(m0) = &t {
+            if let Some(OwnedTerm::Tuple(tp)) = m0.get(&atom("map")) {
+                let mut tp = tp.clone();
+                match ctx.rng.below(7) {
+                    0 => tp[0] = atom(*ctx.rng.pick(&["sets", "nil", "Set", "map"])),
+                    1 => tp[0] = OwnedTerm::Binary(b"set".to_vec()),
+                    2 => {
+                        tp.pop();
+                    }
+                    3 => tp.push(OwnedTerm::Nil),
+                    4 => tp[2] = keys_as_list(&tp[2]),
+                    5 => tp[1] = OwnedTerm::Integer(*ctx.rng.pick(&[-1i64, 0, 99, MAX])),
+                    _ => tp.swap(0, 1),
+                }
+                // `:sets` version 2 is exactly `{set, Size, Map}`: anything else is not a map set
+                let well_shaped = tp.len() == 3 && tp[0] == atom("set") && matches!(tp[2], OwnedTerm::Map(_));
+                let mut m = m0.clone();
+                m.insert(atom("map"), OwnedTerm::Tuple(tp));
+                let h = OwnedTerm::Map(m);
+                hostile_case(ctx, "mapset", &h, &ElixirMapSet::from_term, &|x| x.clone().into(), &show_set);
+                if ElixirMapSet::from_term(&h).is_some() != well_shaped {
+                    ctx.fail("c20-mapset-wrong-shape", &format!("term={} accepted={}", term_text(&h), !well_shaped));
+                }
+                ctx.count("mapset_hostile_tuple");
+            }
+        }
     }
     // ---- exceptions
     for _ in 0..n {
@@ -881,6 +918,394 @@ fn proplists(ctx: &mut Ctx) {
     }
 }
 
+
+// ------------------------------------------------------------------------------------------------ checked constructors
+
+fn opt_show<T>(x: &Option<T>, f: &dyn Fn(&T) -> String) -> String {
+    x.as_ref().map(f).unwrap_or_else(|| "none".to_string())
+}
+
+const YEARS: &[i32] = &[
+    i32::MIN, -2147483647, -400, -100, -4, -1, 0, 1, 4, 100, 400, 1600, 1700, 1900, 1999, 2000, 2023, 2024, 2100, 2400, i32::MAX - 3, i32::MAX,
+];
+
+fn date_ctor_case(ctx: &mut Ctx, y: i32, m: u8, d: u8) {
+    let r = catch_unwind(|| ElixirDate::try_new(y, m, d));
+    let Ok(r) = r else {
+        ctx.tie("ctor", &format!("c20try date {} {} {}", y, m, d), "panic");
+        ctx.fail("c20-try-new-panics", &format!("date {} {} {}", y, m, d));
+        return;
+    };
+    ctx.tie("ctor", &format!("c20try date {} {} {}", y, m, d), &opt_show(&r, &show_date));
+    ctx.prop("gen", &format!("c20pcal date {} {} {} {}", y, m, d, r.is_some() as u8), "ok");
+    ctx.count(if r.is_some() { "date_try_new_some" } else { "date_try_new_none" });
+    if let Some(x) = r {
+        if (x.year, x.month, x.day) != (y, m, d) {
+            ctx.fail("c20-try-new-changes-fields", &format!("date {} {} {} -> {:?}", y, m, d, x));
+        }
+        if ElixirDate::from_term(&x.into()) != Some(x) {
+            ctx.fail("c20-roundtrip-memory", &format!("date try_new {:?}", x));
+        }
+    }
+}
+
+#[allow(clippy::too_many_arguments)]
+fn time_ctor_case(ctx: &mut Ctx, h: u8, mi: u8, s: u8, us: u32, p: u8) {
+    let r = catch_unwind(|| ElixirTime::try_new(h, mi, s, us, p)).unwrap_or(None);
+    ctx.tie("ctor", &format!("c20try time {} {} {} {} {}", h, mi, s, us, p), &opt_show(&r, &show_time));
+    ctx.prop("gen", &format!("c20pcal time {} {} {} {} {} {}", h, mi, s, us, p, r.is_some() as u8), "ok");
+    ctx.count(if r.is_some() { "time_try_new_some" } else { "time_try_new_none" });
+    if let Some(x) = r {
+        if (x.hour, x.minute, x.second, x.microsecond_value, x.microsecond_precision) != (h, mi, s, us, p) {
+            ctx.fail("c20-try-new-changes-fields", &format!("time {} {} {} {} {} -> {:?}", h, mi, s, us, p, x));
+        }
+        if ElixirTime::from_term(&x.into()) != Some(x) {
+            ctx.fail("c20-roundtrip-memory", &format!("time try_new {:?}", x));
+        }
+    }
+    let n = ElixirTime::new(h, mi, s, us, p);
+    ctx.tie("ctor", &format!("c20new time {} {} {} {} {}", h, mi, s, us, p), &show_time(&n));
+    // the unchecked constructor must keep every field it does not document to change (the precision is clamped to 6)
+    if (n.hour, n.minute, n.second, n.microsecond_value) != (h, mi, s, us) || n.microsecond_precision != p.min(6) {
+        ctx.fail("c20-new-changes-fields", &format!("time {} {} {} {} {} -> {:?}", h, mi, s, us, p, n));
+    }
+}
+
+fn constructors(ctx: &mut Ctx) {
+    // every month 0..=13 and 255, the days around every month end, the years around every leap rule
+    let days: &[u8] = &[0, 1, 2, 27, 28, 29, 30, 31, 32, 255];
+    for &y in YEARS {
+        ctx.tie("ctor", &format!("c20leap {}", y), if ElixirDate::is_leap_year(y) { "1" } else { "0" });
+        for m in (0u8..=13).chain([255u8]) {
+            for &d in days {
+                date_ctor_case(ctx, y, m, d);
+            }
+        }
+    }
+    ctx.add("date_try_new_grid", (YEARS.len() * 15 * days.len()) as u64);
+    for &h in &[0u8, 12, 23, 24, 255] {
+        for &mi in &[0u8, 59, 60, 255] {
+            for &s in &[0u8, 59, 60, 255] {
+                for &us in &[0u32, 1, 999_999, 1_000_000, u32::MAX] {
+                    for &p in &[0u8, 1, 6, 7, 255] {
+                        time_ctor_case(ctx, h, mi, s, us, p);
+                    }
+                }
+                let r = ElixirTime::try_hms(h, mi, s);
+                ctx.tie("ctor", &format!("c20try hms {} {} {}", h, mi, s), &opt_show(&r, &show_time));
+                ctx.tie("ctor", &format!("c20new hms {} {} {}", h, mi, s), &show_time(&ElixirTime::hms(h, mi, s)));
+            }
+        }
+    }
+    ctx.add("time_try_new_grid", 5 * 4 * 4 * 5 * 5);
+    let n = ctx.n(400, 4000);
+    for _ in 0..n {
+        let r = &mut ctx.rng;
+        // mostly plausible values so that both outcomes occur
+        let y = if r.chance(2, 3) { *r.pick(YEARS) } else { gen_i32(r) };
+        let mo = if r.chance(3, 4) { r.below(14) as u8 } else { gen_u8(r) };
+        let d = if r.chance(3, 4) { *r.pick(&[0u8, 1, 15, 28, 29, 30, 31, 32]) } else { gen_u8(r) };
+        let h = if r.chance(3, 4) { *r.pick(&[0u8, 7, 23, 24]) } else { gen_u8(r) };
+        let mi = if r.chance(3, 4) { *r.pick(&[0u8, 30, 59, 60]) } else { gen_u8(r) };
+        let s = if r.chance(3, 4) { *r.pick(&[0u8, 30, 59, 60]) } else { gen_u8(r) };
+        let us = if r.chance(3, 4) { *r.pick(&[0u32, 5, 999_999, 1_000_000]) } else { gen_us(r) };
+        let p = gen_prec(r);
+        date_ctor_case(ctx, y, mo, d);
+        time_ctor_case(ctx, h, mi, s, us, p);
+        let args = format!("{} {} {} {} {} {} {} {}", y, mo, d, h, mi, s, us, p);
+        let nv = ElixirNaiveDateTime::try_new(y, mo, d, h, mi, s, us, p);
+        ctx.tie("ctor", &format!("c20try naive {}", args), &opt_show(&nv, &show_naive));
+        ctx.prop("gen", &format!("c20pcal naive {} {}", args, nv.is_some() as u8), "ok");
+        ctx.count(if nv.is_some() { "naive_try_new_some" } else { "naive_try_new_none" });
+        let ut = ElixirDateTime::try_utc(y, mo, d, h, mi, s, us, p);
+        ctx.tie("ctor", &format!("c20try utc {}", args), &opt_show(&ut, &show_dt));
+        ctx.prop("gen", &format!("c20pcal naive {} {}", args, ut.is_some() as u8), "ok");
+        if let Some(x) = &nv {
+            let want = ElixirNaiveDateTime { year: y, month: mo, day: d, hour: h, minute: mi, second: s, microsecond_value: us, microsecond_precision: p };
+            if *x != want {
+                ctx.fail("c20-try-new-changes-fields", &format!("naive {} -> {:?}", args, x));
+            }
+            if ElixirNaiveDateTime::from_term(&(*x).into()) != Some(*x) || wire(&(*x).into()).and_then(|t| ElixirNaiveDateTime::from_term(&t)) != Some(*x) {
+                ctx.fail("c20-roundtrip-memory", &format!("naive try_new {:?}", x));
+            }
+        }
+        if let Some(x) = &ut {
+            if ElixirDateTime::from_term(&x.clone().into()).as_ref() != Some(x) || wire(&x.clone().into()).and_then(|t| ElixirDateTime::from_term(&t)).as_ref() != Some(x) {
+                ctx.fail("c20-roundtrip-memory", &format!("datetime try_utc {:?}", x));
+            }
+        }
+        let nn = ElixirNaiveDateTime::new(y, mo, d, h, mi, s, us, p);
+        ctx.tie("ctor", &format!("c20new naive {}", args), &show_naive(&nn));
+        let uu = ElixirDateTime::utc(y, mo, d, h, mi, s, us, p);
+        ctx.tie("ctor", &format!("c20new utc {}", args), &show_dt(&uu));
+        let tz = ctx.rng.pick(STRS).to_string();
+        let za = ctx.rng.pick(STRS).to_string();
+        let (uo, so) = (gen_i32(&mut ctx.rng), gen_i32(&mut ctx.rng));
+        let wz = ElixirDateTime::with_timezone(y, mo, d, h, mi, s, us, p, &tz, &za, uo, so);
+        ctx.tie(
+            "ctor",
+            &format!("c20new withtz {} {} {} {} {}", args, hexarg(tz.as_bytes()), hexarg(za.as_bytes()), uo, so),
+            &show_dt(&wz),
+        );
+        // conversions of a value whose fields are set directly (the precision may exceed 6)
+        let raw = ElixirNaiveDateTime { year: y, month: mo, day: d, hour: h, minute: mi, second: s, microsecond_value: us, microsecond_precision: p };
+        let back = ElixirNaiveDateTime::from_date_time(raw.to_date(), ElixirTime { hour: h, minute: mi, second: s, microsecond_value: us, microsecond_precision: p });
+        ctx.tie(
+            "ctor",
+            &format!("c20conv naive {}", args),
+            &format!("{} {} {}", show_date(&raw.to_date()), show_time(&raw.to_time()), show_naive(&back)),
+        );
+        let rawz = ElixirDateTime {
+            year: y, month: mo, day: d, hour: h, minute: mi, second: s, microsecond_value: us, microsecond_precision: p,
+            time_zone: tz.clone(), zone_abbr: za.clone(), utc_offset: uo, std_offset: so,
+        };
+        ctx.tie(
+            "ctor",
+            &format!("c20conv datetime {} {} {} {} {}", args, hexarg(tz.as_bytes()), hexarg(za.as_bytes()), uo, so),
+            &format!("{} {} {}", show_date(&rawz.to_date()), show_time(&rawz.to_time()), show_naive(&rawz.to_naive())),
+        );
+        if back != raw {
+            ctx.fail("c20-from-date-time-loses", &format!("naive {:?} -> {:?}", raw, back));
+        }
+    }
+}
+
+// ------------------------------------------------------------------------------------------------ map set operations
+
+fn set_ops(ctx: &mut Ctx) {
+    let n = ctx.n(150, 1500);
+    for _ in 0..n {
+        // a small pool so that inserts hit existing members and removes hit present ones
+        let pool: Vec<OwnedTerm> = (0..5).map(|_| gen_simple(&mut ctx.rng, 1)).collect();
+        let k = ctx.rng.below(9) as usize;
+        let mut set = ElixirMapSet::new();
+        let mut ops: Vec<OwnedTerm> = Vec::new();
+        let mut flags = String::new();
+        for _ in 0..k {
+            let t = ctx.rng.pick(&pool).clone();
+            match ctx.rng.below(10) {
+                0..=4 => {
+                    flags.push(if set.insert(t.clone()) { '1' } else { '0' });
+                    ops.push(OwnedTerm::Tuple(vec![atom("i"), t]));
+                }
+                5 | 6 => {
+                    flags.push(if set.remove(&t) { '1' } else { '0' });
+                    ops.push(OwnedTerm::Tuple(vec![atom("r"), t]));
+                }
+                7 | 8 => {
+                    flags.push(if set.contains(&t) { '1' } else { '0' });
+                    ops.push(OwnedTerm::Tuple(vec![atom("c"), t]));
+                }
+                _ => {
+                    set.clear();
+                    flags.push('x');
+                    ops.push(atom("clear"));
+                }
+            }
+        }
+        ctx.count(&format!("set_ops_{}", k.min(4)));
+        ctx.tie(
+            "setops",
+            &format!("c20setseq {}", term_text(&OwnedTerm::List(ops))),
+            &format!("{} {} {} {}", flags, show_set(&set), set.len(), set.is_empty() as u8),
+        );
+        // whatever the operations were, the set converts to a term and back (also through the wire)
+        let t: OwnedTerm = set.clone().into();
+        if ElixirMapSet::from_term(&t).as_ref() != Some(&set) {
+            ctx.fail("c20-roundtrip-memory", &format!("mapset after ops {}", show_set(&set)));
+        }
+        let a_vals: Vec<OwnedTerm> = (0..ctx.rng.below(5)).map(|_| ctx.rng.pick(&pool).clone()).collect();
+        let b_vals: Vec<OwnedTerm> = (0..ctx.rng.below(5)).map(|_| ctx.rng.pick(&pool).clone()).collect();
+        let a = ElixirMapSet::from_values(a_vals.clone());
+        let b: ElixirMapSet = b_vals.iter().cloned().collect();
+        let (u, i, d, sd) = (a.union(&b), a.intersection(&b), a.difference(&b), a.symmetric_difference(&b));
+        ctx.tie(
+            "setops",
+            &format!("c20set2 {} {}", term_text(&OwnedTerm::List(a_vals)), term_text(&OwnedTerm::List(b_vals))),
+            &format!(
+                "{} {} {} {} {}{}{}",
+                show_set(&u), show_set(&i), show_set(&d), show_set(&sd),
+                a.is_subset(&b) as u8, a.is_superset(&b) as u8, a.is_disjoint(&b) as u8
+            ),
+        );
+        for (name, x) in [("union", &u), ("intersection", &i), ("difference", &d), ("symmetric_difference", &sd)] {
+            let t: OwnedTerm = x.clone().into();
+            let mut viaw = ElixirMapSet::new();
+            let mut ok = true;
+            for e in x {
+                match wire(e) {
+                    Some(w) => {
+                        viaw.insert(w);
+                    }
+                    None => ok = false,
+                }
+            }
+            if ElixirMapSet::from_term(&t).as_ref() != Some(x) {
+                ctx.fail("c20-roundtrip-memory", &format!("mapset {} {}", name, show_set(x)));
+            }
+            if ok && wire(&t).and_then(|w| ElixirMapSet::from_term(&w)).as_ref() != Some(&viaw) {
+                ctx.fail("c20-roundtrip-wire", &format!("mapset {} {}", name, show_set(x)));
+            }
+        }
+        // iteration: owned and borrowed yield the elements in order
+        let owned: Vec<OwnedTerm> = u.clone().into_iter().collect();
+        let borrowed: Vec<OwnedTerm> = (&u).into_iter().cloned().collect();
+        if owned != borrowed || owned.len() != u.len() {
+            ctx.fail("c20-mapset-iteration", &format!("{}", show_set(&u)));
+        }
+    }
+}
+
+// ------------------------------------------------------------------------------------------------ builder call chains
+
+const KEYS: &[&str] = &["a", "b", "name", "age", "timeout", "ok", "nil", "__struct__"];
+
+fn bval(r: &mut Rng) -> (OwnedTerm, u8, i64, bool, String) {
+    // (description term, kind, int, bool, str): the harness calls the generic method with the Rust value of that kind
+    match r.below(3) {
+        0 => {
+            let i = *r.pick(&[0i64, 1, -1, 5000, 1 << 40, MIN, MAX]);
+            (OwnedTerm::Tuple(vec![atom("i"), OwnedTerm::Integer(i)]), 0, i, false, String::new())
+        }
+        1 => {
+            let b = r.chance(1, 2);
+            (OwnedTerm::Tuple(vec![atom("b"), atom(if b { "true" } else { "false" })]), 1, 0, b, String::new())
+        }
+        _ => {
+            let s = r.pick(STRS).to_string();
+            (OwnedTerm::Tuple(vec![atom("s"), OwnedTerm::Binary(s.as_bytes().to_vec())]), 2, 0, false, s)
+        }
+    }
+}
+
+fn builder_ops(ctx: &mut Ctx) {
+    let n = ctx.n(200, 2000);
+    for _ in 0..n {
+        let mut kw = if ctx.rng.chance(1, 4) { KeywordListBuilder::with_capacity(ctx.rng.below(9) as usize) } else { KeywordListBuilder::new() };
+        let mut akm = AtomKeyMapBuilder::new();
+        let mut kw_ops: Vec<OwnedTerm> = Vec::new();
+        let mut akm_ops: Vec<OwnedTerm> = Vec::new();
+        let mut firsts: Vec<(String, OwnedTerm)> = Vec::new();
+        let mut lasts: BTreeMap<String, OwnedTerm> = BTreeMap::new();
+        let k = ctx.rng.below(7);
+        for _ in 0..k {
+            let key: &'static str = *ctx.rng.pick(KEYS);
+            let ka = atom(key);
+            let mut pushed: Vec<(String, OwnedTerm)> = Vec::new();
+            match ctx.rng.below(8) {
+                0 | 1 => {
+                    let (d, kind, i, b, s) = bval(&mut ctx.rng);
+                    let v: OwnedTerm = match kind { 0 => i.into(), 1 => b.into(), _ => s.as_str().into() };
+                    match kind {
+                        0 => { kw = kw.put(key, i); akm = akm.insert(key, i); }
+                        1 => { kw = kw.put(key, b); akm = akm.insert(key, b); }
+                        _ => { kw = kw.put(key, s.as_str()); akm = akm.insert(key, s.as_str()); }
+                    }
+                    let op = OwnedTerm::Tuple(vec![atom("put"), ka, d]);
+                    kw_ops.push(op.clone());
+                    akm_ops.push(op);
+                    pushed.push((key.to_string(), v));
+                }
+                2 => {
+                    let a = *ctx.rng.pick(ATOMS);
+                    kw = kw.put_atom(key, a);
+                    akm = akm.insert_atom(key, a);
+                    let op = OwnedTerm::Tuple(vec![atom("atom"), ka, atom(a)]);
+                    kw_ops.push(op.clone());
+                    akm_ops.push(op);
+                    pushed.push((key.to_string(), atom(a)));
+                }
+                3 => {
+                    kw = kw.put_flag(key);
+                    akm = akm.insert(key, true);
+                    kw_ops.push(OwnedTerm::Tuple(vec![atom("flag"), ka.clone()]));
+                    akm_ops.push(OwnedTerm::Tuple(vec![atom("put"), ka, OwnedTerm::Tuple(vec![atom("b"), atom("true")])]));
+                    pushed.push((key.to_string(), atom("true")));
+                }
+                4 => {
+                    let t = gen_simple(&mut ctx.rng, 2);
+                    kw = kw.put_term(key, t.clone());
+                    akm = akm.insert_term(key, t.clone());
+                    let op = OwnedTerm::Tuple(vec![atom("term"), ka, t.clone()]);
+                    kw_ops.push(op.clone());
+                    akm_ops.push(op);
+                    pushed.push((key.to_string(), t));
+                }
+                5 => {
+                    let c = ctx.rng.chance(1, 2);
+                    let i = ctx.rng.below(100) as i64;
+                    kw = kw.put_if(c, key, i);
+                    akm = akm.insert_if(c, key, i);
+                    let op = OwnedTerm::Tuple(vec![atom("if"), atom(if c { "true" } else { "false" }), ka, OwnedTerm::Tuple(vec![atom("i"), OwnedTerm::Integer(i)])]);
+                    kw_ops.push(op.clone());
+                    akm_ops.push(op);
+                    if c {
+                        pushed.push((key.to_string(), OwnedTerm::Integer(i)));
+                    }
+                }
+                6 => {
+                    let v = if ctx.rng.chance(1, 2) { Some(*ctx.rng.pick(STRS)) } else { None };
+                    kw = kw.put_some(key, v);
+                    akm = akm.insert_some(key, v);
+                    let op = match v {
+                        Some(s) => OwnedTerm::Tuple(vec![atom("some"), ka, OwnedTerm::Tuple(vec![atom("s"), OwnedTerm::Binary(s.as_bytes().to_vec())])]),
+                        None => OwnedTerm::Tuple(vec![atom("some"), ka]),
+                    };
+                    kw_ops.push(op.clone());
+                    akm_ops.push(op);
+                    if let Some(s) = v {
+                        pushed.push((key.to_string(), OwnedTerm::String(s.to_string())));
+                    }
+                }
+                _ => {
+                    let m = ctx.rng.below(4) as usize;
+                    let items: Vec<(&'static str, i64)> = (0..m).map(|_| (*ctx.rng.pick(KEYS), ctx.rng.below(50) as i64 - 5)).collect();
+                    kw = kw.extend(items.clone());
+                    akm = akm.extend(items.clone());
+                    let op = OwnedTerm::Tuple(vec![
+                        atom("ext"),
+                        OwnedTerm::List(items.iter().map(|(k, v)| OwnedTerm::Tuple(vec![atom(k), OwnedTerm::Tuple(vec![atom("i"), OwnedTerm::Integer(*v)])])).collect()),
+                    ]);
+                    kw_ops.push(op.clone());
+                    akm_ops.push(op);
+                    for (k, v) in items {
+                        pushed.push((k.to_string(), OwnedTerm::Integer(v)));
+                    }
+                }
+            }
+            for (k, v) in pushed {
+                if !firsts.iter().any(|(k0, _)| *k0 == k) {
+                    firsts.push((k.clone(), v.clone()));
+                }
+                lasts.insert(k, v);
+            }
+        }
+        ctx.count(&format!("builder_chain_{}", k.min(4)));
+        let (kl, ke, al, ae) = (kw.len(), kw.is_empty(), akm.len(), akm.is_empty());
+        let kwt = kw.build();
+        let akt = akm.build();
+        ctx.tie("build", &format!("c20kwops {}", term_text(&OwnedTerm::List(kw_ops))), &format!("{} {} {}", kl, ke as u8, term_text(&kwt)));
+        ctx.tie("build", &format!("c20akmops {}", term_text(&OwnedTerm::List(akm_ops))), &format!("{} {} {}", al, ae as u8, term_text(&akt)));
+        // back out of the built terms: every key with the value of its first put (keyword list) / last insert (map)
+        for (k, v) in &firsts {
+            if kwt.proplist_get_atom_key(k) != Some(v) {
+                ctx.fail("c20-builder-value-lost", &format!("keyword list {} key={}", term_text(&kwt), k));
+            }
+        }
+        for (k, v) in &lasts {
+            if akt.map_get_atom_key(k) != Some(v) {
+                ctx.fail("c20-builder-value-lost", &format!("map {} key={}", term_text(&akt), k));
+            }
+        }
+        if !kwt.is_proplist() || kwt.proplist_to_map().ok().as_ref() != Some(&akt) {
+            ctx.fail("c20-builders-disagree", &format!("kw={} map={}", term_text(&kwt), term_text(&akt)));
+        }
+        if al != lasts.len() || ke != (kl == 0) || ae != (al == 0) {
+            ctx.fail("c20-builder-len", &format!("kw={} map={}", term_text(&kwt), term_text(&akt)));
+        }
+    }
+}
+
 // ------------------------------------------------------------------------------------------------ derived structs
 
 #[derive(Debug, PartialEq, Clone, erltf_serde::ElixirStruct)]
@@ -940,5 +1365,8 @@ pub fn run(ctx: &mut Ctx) {
     ranges(ctx);
     wrappers(ctx);
     proplists(ctx);
+    constructors(ctx);
+    set_ops(ctx);
+    builder_ops(ctx);
     derived(ctx);
 }
